@@ -1382,6 +1382,11 @@ def _tuple_states(model: Model, P: RuleResult):
         P.ok(f.fq, "the tuple y0 is flattened before integration, the wrapped dynamics are integrated and the trajectory is unflattened with the same packer")
     else:
         P.bad(f, src_if or f.node, "tuple states: y0 must be flattened, integrated through the wrapper and the result packed back, all with one packer")
+    _tensor_packer(model, P)
+
+
+def _tensor_packer(model: Model, P: RuleResult):
+    tp = model.cls(MISC, "TensorPacker")
     # TensorPacker: offsets are contiguous, flatten and pack use list order
     init, flat, pack = tp.find_method("__init__"), tp.find_method("flatten"), tp.find_method("pack")
     isrc = ast.unparse(init.node)
@@ -1429,6 +1434,8 @@ def _tuple_states(model: Model, P: RuleResult):
                 ok_f = (isinstance(el, ast.Call) and isinstance(el.func, ast.Attribute) and el.func.attr == "reshape" and ast.unparse(el.func.value) == ast.unparse(v)
                         and [ast.unparse(a) for a in el.args] == ["-1"] and (not dim or ast.unparse(dim[0]) in ("-1", "0")))
     ok_pk = False
+    n_ret_pack = sum(1 for r in own_nodes(pack.node) if isinstance(r, ast.Return))
+    n_ret_flat = sum(1 for r in own_nodes(flat.node) if isinstance(r, ast.Return))
     for r in own_nodes(pack.node):
         if isinstance(r, ast.Return) and isinstance(r.value, ast.Call) and ast.unparse(r.value.func) in ("tuple", "list") and r.value.args:
             ge = r.value.args[0]
@@ -1443,10 +1450,15 @@ def _tuple_states(model: Model, P: RuleResult):
                         sl = sub.slice.elts[-1] if isinstance(sub.slice, ast.Tuple) else sub.slice
                         ok_pk = (ast.unparse(sub.value) == yp and isinstance(sl, ast.Slice) and ast.unparse(sl.lower) == a and ast.unparse(sl.upper) == b
                                  and sl.step is None and c in names_loaded(el.args[0]))
+    if n_ret_pack != 1 or n_ret_flat != 1:
+        # every exit must be the per-segment form: a second return (a "fast path") is a second implementation of the inverse
+        ok_pk = ok_pk and n_ret_pack == 1
+        ok_f = ok_f and n_ret_flat == 1
     if ok_f and ok_pk:
         P.ok(tp.fq, "flatten concatenates reshape(-1) of the tensors in list order; pack slices [start:finish] of the last axis in the same order and restores each shape")
     else:
-        P.bad(flat if not ok_f else pack, (flat if not ok_f else pack).node, "flatten and pack must be inverse: concatenate flattened tensors in list order / slice the same segments in the same order")
+        P.bad(flat if not ok_f else pack, (flat if not ok_f else pack).node, "flatten and pack must be inverse on EVERY path: concatenate flattened tensors in list order / slice the same segments in the same order, "
+              "each restored to its own shape (found %d return(s) in pack, %d in flatten)" % (n_ret_pack, n_ret_flat))
 
 
 # ------------------------------------------------------------------------------------------ driver
